@@ -49,12 +49,18 @@ def strategy(tier, phase):
             "perm": st.lists(st.integers(0, 9), min_size=1, max_size=12),
             "entry": st.integers(0, 2),
             "dag": st.sampled_from([True, True, False]),
+            # consumers that are in no graph (a node removed with its inputs still attached, or built and never
+            # inserted): they add uses to values without being part of what is sorted
+            "orphans": st.one_of(st.just([]), st.lists(st.tuples(st.integers(0, 30), st.integers(0, 1)).map(list), min_size=1, max_size=4)),
         }
     )
 
 
 class Malformed(Exception):
     pass
+
+
+ORPHANS = []  # keeps the graph-less consumers of recent cases alive
 
 
 def build(case):
@@ -150,6 +156,11 @@ def build(case):
         lst = list(graphs[g])
         if lst:
             graphs[g].outputs.append(lst[-1].outputs[0])
+    for r, oi in case.get("orphans") or []:
+        src = nodes[r % len(nodes)]
+        ORPHANS.append(ir.Node("", "Orphan", [src.outputs[oi % len(src.outputs)]], num_outputs=1, name=f"orphan{len(ORPHANS)}"))
+        if len(ORPHANS) > 64:
+            del ORPHANS[:32]
     return graphs, nodes, node_graph
 
 
